@@ -8,14 +8,20 @@ import (
 	"encoding/gob"
 	"encoding/hex"
 	"fmt"
+	"go/token"
 	"os"
 	"path/filepath"
+	"reflect"
 	"sort"
 	"strings"
 
 	"go.uber.org/nilaway"
+	"go.uber.org/nilaway/annotation"
+	"go.uber.org/nilaway/assertion"
+	"go.uber.org/nilaway/assertion/function/functioncontracts"
 	"go.uber.org/nilaway/config"
 	"go.uber.org/nilaway/inference"
+	"go.uber.org/nilaway/util/analysishelper"
 	"golang.org/x/tools/go/analysis"
 	"golang.org/x/tools/go/analysis/checker"
 	"golang.org/x/tools/go/packages"
@@ -41,11 +47,35 @@ type Fact struct {
 	Sites    []inference.VerifSiteInfo `json:"sites,omitempty"`
 }
 
+// Trigger is one full trigger of the assertion analyzer, rendered abstractly: kinds, site keys, consumer position.
+type Trigger struct {
+	Pkg      string `json:"pkg"`
+	ProdKind string `json:"pk"` // Always / Never / Conditional / DeepConditional
+	ProdType string `json:"pt"` // Go type of the producing annotation
+	ProdSite string `json:"ps"` // String() of the underlying site key, "" if none
+	ConsKind string `json:"ck"`
+	ConsType string `json:"ct"`
+	ConsSite string `json:"cs"`
+	File     string `json:"file"`
+	Line     int    `json:"line"`
+	Col      int    `json:"col"`
+	Ctrl     string `json:"ctrl"` // controller site key, "" if uncontrolled
+}
+
+// Contract is one inferred or written function contract.
+type Contract struct {
+	Pkg  string `json:"pkg"`
+	Func string `json:"func"`
+	Text string `json:"text"`
+}
+
 // Result of one run.
 type Result struct {
-	Diags  []Diag   `json:"diags"`
-	Facts  []Fact   `json:"facts"`
-	Errors []string `json:"errors"`
+	Diags     []Diag     `json:"diags"`
+	Facts     []Fact     `json:"facts"`
+	Errors    []string   `json:"errors"`
+	Triggers  []Trigger  `json:"triggers,omitempty"`
+	Contracts []Contract `json:"contracts,omitempty"`
 }
 
 // Options for Run.
@@ -58,6 +88,7 @@ type Options struct {
 	Env         []string
 	Tests       bool
 	Sites       bool // include the site identities of InferredMap facts
+	Triggers    bool // include the full triggers of the assertion analyzer and the function contracts
 }
 
 // SetFlags sets (and resets to defaults first) the config analyzer flags.
@@ -103,7 +134,12 @@ func Run(o Options) (*Result, error) {
 			res.Errors = append(res.Errors, "load: "+e.Error())
 		}
 	}
-	g, err := checker.Analyze([]*analysis.Analyzer{nilaway.Analyzer}, pkgs, &checker.Options{Sequential: o.Sequential, SanityCheck: o.SanityCheck})
+	roots := []*analysis.Analyzer{nilaway.Analyzer}
+	if o.Triggers {
+		// results are kept for root actions only
+		roots = append(roots, assertion.Analyzer, functioncontracts.Analyzer)
+	}
+	g, err := checker.Analyze(roots, pkgs, &checker.Options{Sequential: o.Sequential, SanityCheck: o.SanityCheck})
 	if err != nil {
 		return nil, err
 	}
@@ -120,6 +156,23 @@ func Run(o Options) (*Result, error) {
 					f = rel
 				}
 				res.Diags = append(res.Diags, Diag{Pkg: act.Package.PkgPath, File: f, Line: posn.Line, Col: posn.Column, Valid: d.Pos.IsValid(), Message: d.Message})
+			}
+		}
+		if o.Triggers && act.Analyzer == assertion.Analyzer && act.Err == nil {
+			if r, ok := act.Result.(*analysishelper.Result[[]annotation.FullTrigger]); ok && r != nil {
+				for _, t := range r.Res {
+					res.Triggers = append(res.Triggers, renderTrigger(act.Package.PkgPath, act.Package.Fset, absDir, t))
+				}
+			}
+		}
+		if o.Triggers && act.Analyzer == functioncontracts.Analyzer && act.Err == nil {
+			if r, ok := act.Result.(*analysishelper.Result[functioncontracts.Map]); ok && r != nil {
+				for fn, cs := range r.Res {
+					if fn.Pkg() != act.Package.Types {
+						continue
+					}
+					res.Contracts = append(res.Contracts, Contract{Pkg: act.Package.PkgPath, Func: fn.FullName(), Text: fmt.Sprintf("%v", cs)})
+				}
 			}
 		}
 		for _, pf := range act.AllPackageFacts() {
@@ -139,6 +192,13 @@ func Run(o Options) (*Result, error) {
 	}
 	// g.All() order is not specified: canonicalise by package, keeping per-package report order
 	sort.SliceStable(res.Diags, func(i, j int) bool { return res.Diags[i].Pkg < res.Diags[j].Pkg })
+	sort.SliceStable(res.Triggers, func(i, j int) bool { return res.Triggers[i].Pkg < res.Triggers[j].Pkg })
+	sort.SliceStable(res.Contracts, func(i, j int) bool {
+		if res.Contracts[i].Pkg != res.Contracts[j].Pkg {
+			return res.Contracts[i].Pkg < res.Contracts[j].Pkg
+		}
+		return res.Contracts[i].Func < res.Contracts[j].Func
+	})
 	sort.SliceStable(res.Facts, func(i, j int) bool {
 		a, b := res.Facts[i], res.Facts[j]
 		if a.Pkg != b.Pkg {
@@ -150,6 +210,37 @@ func Run(o Options) (*Result, error) {
 		return a.Type < b.Type
 	})
 	return res, nil
+}
+
+func siteString(k annotation.Key) string {
+	if k == nil || reflect.ValueOf(k).IsNil() {
+		return ""
+	}
+	return fmt.Sprintf("%T:%s", k, k.String())
+}
+
+func renderTrigger(pkg string, fset *token.FileSet, absDir string, t annotation.FullTrigger) Trigger {
+	out := Trigger{Pkg: pkg}
+	if t.Producer != nil && t.Producer.Annotation != nil {
+		out.ProdKind = fmt.Sprint(t.Producer.Annotation.Kind())
+		out.ProdType = fmt.Sprintf("%T", t.Producer.Annotation)
+		out.ProdSite = siteString(t.Producer.Annotation.UnderlyingSite())
+	}
+	if t.Consumer != nil && t.Consumer.Annotation != nil {
+		out.ConsKind = fmt.Sprint(t.Consumer.Annotation.Kind())
+		out.ConsType = fmt.Sprintf("%T", t.Consumer.Annotation)
+		out.ConsSite = siteString(t.Consumer.Annotation.UnderlyingSite())
+		posn := fset.Position(t.Consumer.Pos())
+		f := posn.Filename
+		if rel, err := filepath.Rel(absDir, f); err == nil && !strings.HasPrefix(rel, "..") {
+			f = rel
+		}
+		out.File, out.Line, out.Col = f, posn.Line, posn.Column
+	}
+	if t.Controller != nil {
+		out.Ctrl = siteString(t.Controller)
+	}
+	return out
 }
 
 func sitesIf(on bool, f analysis.Fact) []inference.VerifSiteInfo {
